@@ -117,3 +117,24 @@ func (r *Rand) PickBytes4() []byte {
 	}
 	return r.Bytes(4)
 }
+
+// Slack returns b in one of three memory shapes with identical contents: as
+// it is, as a copy whose capacity equals its length, or as a copy followed by
+// spare capacity filled with random bytes. A decoder must depend on the len(b)
+// bytes only.
+func (r *Rand) Slack(b []byte) []byte { return SlackBy(b, r.Uint64()) }
+
+// SlackBy is Slack with the choice determined by k.
+func SlackBy(b []byte, k uint64) []byte {
+	switch k % 3 {
+	case 0:
+		return b
+	case 1:
+		return append(make([]byte, 0, len(b)), b...)
+	}
+	q := New(k, 0x51ac)
+	buf := make([]byte, len(b)+1+q.Intn(64))
+	q.Fill(buf)
+	copy(buf, b)
+	return buf[:len(b)]
+}
